@@ -66,6 +66,19 @@ class Operand:
         self.data = Opaque(f"{nm}.data")
 
 
+def _mask_copy_ok(log, w, where):
+    """the op records a PRIVATE COPY of the caller's mask (np.array(where, copy=True) / np.copy(where)): a caller who re-uses its mask
+    array before backward() must not change what is differentiated (C01/C02); recording the caller's own array is refuted"""
+    for (nm, a, k, res) in log:
+        if nm in ("array", "copy") and len(a) >= 1 and a[0] is where and w is res and (nm == "copy" or k.get("copy", True) is True):
+            return True
+    return False
+
+
+def _only_kernel_and_mask_copy(log, kernel_name):
+    return sum(1 for c in log if c[0] == kernel_name) == 1 and all(c[0] in (kernel_name, "array", "copy") for c in log)
+
+
 def classes_of(kind_bases):
     """concrete subclasses of the given bases, by AST scan of the ops modules"""
     found = {}
@@ -118,7 +131,7 @@ def ufunc_harness(mod, cls, arity, variant):
             ctx.oblige(f"{tag}.no_exception", False, raised=e.exc.cls_name(), **meta)
             return
         kern = [c for c in log if c[0] == EXPECTED.get(cls)]
-        ctx.oblige(f"{tag}.namesake_kernel_called_once", len(kern) == 1 and len(log) == 1, calls=[c[0] for c in log], **meta)
+        ctx.oblige(f"{tag}.namesake_kernel_called_once", _only_kernel_and_mask_copy(log, EXPECTED.get(cls)), calls=[c[0] for c in log], **meta)
         if len(kern) != 1:
             return
         _n, a, k, res = kern[0]
@@ -135,7 +148,7 @@ def ufunc_harness(mod, cls, arity, variant):
         v = op.fields.get("variables")
         ctx.oblige(f"{tag}.variables", isinstance(v, tuple) and len(v) == arity and all(v[i] is xs[i] for i in range(arity)), **meta)
         w = interp.getattr(op, "where")
-        ctx.oblige(f"{tag}.mask_recorded_iff_passed", (w is where) if variant == "all" else (w is True), **meta)
+        ctx.oblige(f"{tag}.mask_recorded_iff_passed", _mask_copy_ok(log, w, where) if variant == "all" else (w is True), **meta)
 
     return h
 
@@ -175,7 +188,7 @@ def sequential_harness(mod, cls, variant):
             ctx.oblige(f"{tag}.no_exception", False, raised=e.exc.cls_name(), **meta)
             return
         kern = [c for c in log if c[0] == EXPECTED.get(cls)]
-        ctx.oblige(f"{tag}.namesake_kernel_called_once", len(kern) == 1 and len(log) == 1, calls=[c[0] for c in log], **meta)
+        ctx.oblige(f"{tag}.namesake_kernel_called_once", _only_kernel_and_mask_copy(log, EXPECTED.get(cls)), calls=[c[0] for c in log], **meta)
         if len(kern) != 1:
             return
         _n, pa, k, res = kern[0]
@@ -195,7 +208,7 @@ def sequential_harness(mod, cls, variant):
         ctx.oblige(f"{tag}.axis_normalised", stored_axis == exp_axis and type(stored_axis) is type(exp_axis), **meta)
         ctx.oblige(f"{tag}.out_shape_recorded", op.fields.get("out_shape") is res.shape, **meta)
         w = interp.getattr(op, "where")
-        ctx.oblige(f"{tag}.mask_recorded_iff_passed", (w is where) if "w" in opts else (w is True), **meta)
+        ctx.oblige(f"{tag}.mask_recorded_iff_passed", _mask_copy_ok(log, w, where) if "w" in opts else (w is True), **meta)
         if "k" in opts:
             ctx.oblige(f"{tag}.keepdims_stored", op.fields.get("keepdims") is True, **meta)
         if "d" in opts:
